@@ -175,10 +175,10 @@ func newSandbox(pad int, prepop string) (*sandbox, error) {
 var prepopParts = map[string][]string{
 	"empty":  nil,
 	"absent": nil, // the working directory does not exist yet
-	"d":     {"d"},
-	"ds":    {"d", "s"},
-	"sub":   {"sub"},
-	"full":  {"d", "s", "sub"},
+	"d":      {"d"},
+	"ds":     {"d", "s"},
+	"sub":    {"sub"},
+	"full":   {"d", "s", "sub"},
 }
 
 // prepopLinkTargets: symbolic links (base name -> target) each kind creates (for Case.climb).
